@@ -183,4 +183,71 @@ theorem cb_rot_pair_r (k1 k2 : BitVec 3) (F : BitVec 8 → Bool → BitVec 8)
     all_goals cases s <;> simp [setR8, getR8, Cpu.setF]
   · rw [e2]; exact hm
 
+/-! ### one `emulate` call in terms of `exec`/`execED`/`execCB` -/
+
+/-- an instruction boundary of the recording bus at which `emulate` accepts no interrupt and no prefix
+is pending -/
+def Calm (s : Cpu) (b : RecBus) : Prop :=
+  s.activePrefix = .none ∧ s.skipInt = false ∧ b.nmi = false ∧ (b.int && s.iff1) = false
+
+theorem Calm.quiescent {s : Cpu} {b : RecBus} (h : Calm s b) : Quiescent s b := ⟨h.2.1, h.2.2.1, h.2.2.2⟩
+
+/-- the byte of an index prefix -/
+def idxByte : Pfx → BitVec 8
+  | .dd => 0xDD | .fd => 0xFD | .none => 0x00
+
+theorem emulate_main (v : Variant) (s : Cpu) (b : RecBus) (hc : Calm s b)
+    (hnp : (decode (b.mem s.pc)).isPrefix = false) :
+    emulate v (s, b) =
+      let sb := exec v .none (decode (b.mem s.pc)) (stepQ { s with r := incR s.r, pc := s.pc + 1 }) (read s.pc 4 b).2
+      (sb.1, Bus.pcCallback sb.1.pc sb.2) := by
+  have hap := hc.1
+  generalize hi : decode (b.mem s.pc) = i at hnp
+  cases i <;> simp [Instr.isPrefix] at hnp <;>
+    simp [emulate, checkInterrupt_quiescent s b hc.quiescent, execOne, hap, fetchByte, rb_read, hi]
+
+theorem emulate_ed (v : Variant) (s : Cpu) (b : RecBus) (hc : Calm s b) (h0 : b.mem s.pc = 0xED) :
+    emulate v (s, b) =
+      let sb := execED (decodeED (b.mem (s.pc + 1))) (stepQ { s with r := incR (incR s.r), pc := s.pc + 1 + 1 })
+        (read (s.pc + 1) 4 (read s.pc 4 b).2).2
+      (sb.1, Bus.pcCallback sb.1.pc sb.2) := by
+  have hap := hc.1
+  have hd : decode 237#8 = .pfxED := by decide
+  simp only [BitVec.ofNat_eq_ofNat] at h0
+  simp [emulate, checkInterrupt_quiescent s b hc.quiescent, execOne, hap, fetchByte, rb_read, h0, hd, afterEDPrefix,
+    rb_read_mem, stepQ]
+
+theorem emulate_cb (v : Variant) (s : Cpu) (b : RecBus) (hc : Calm s b) (h0 : b.mem s.pc = 0xCB) :
+    emulate v (s, b) =
+      let sb := execCB (stepQ { s with r := incR s.r, pc := s.pc + 1 }) (read s.pc 4 b).2
+      (sb.1, Bus.pcCallback sb.1.pc sb.2) := by
+  have hap := hc.1
+  have hd : decode 203#8 = .pfxCB := by decide
+  simp only [BitVec.ofNat_eq_ofNat] at h0
+  simp [emulate, checkInterrupt_quiescent s b hc.quiescent, execOne, hap, fetchByte, rb_read, h0, hd, stepQ]
+
+theorem emulate_idx (v : Variant) (p : Pfx) (hp : p ≠ .none) (s : Cpu) (b : RecBus) (hc : Calm s b)
+    (h0 : b.mem s.pc = idxByte p) (hnp : (decode (b.mem (s.pc + 1))).isPrefix = false) :
+    emulate v (s, b) =
+      let sb := exec v p (decode (b.mem (s.pc + 1))) (stepQ { s with r := incR (incR s.r), pc := s.pc + 1 + 1 })
+        (read (s.pc + 1) 4 (read s.pc 4 b).2).2
+      (sb.1, Bus.pcCallback sb.1.pc sb.2) := by
+  have hap := hc.1
+  have hdd : decode 221#8 = .pfxDD := by decide
+  have hfd : decode 253#8 = .pfxFD := by decide
+  generalize hi : decode (b.mem (s.pc + 1)) = i at hnp
+  simp only [BitVec.ofNat_eq_ofNat] at hi
+  cases p with
+  | none => exact absurd rfl hp
+  | dd =>
+    simp only [idxByte, BitVec.ofNat_eq_ofNat] at h0
+    cases i <;> simp [Instr.isPrefix] at hnp <;>
+      simp [emulate, checkInterrupt_quiescent s b hc.quiescent, execOne, hap, fetchByte, rb_read, rb_read_mem, h0, hdd,
+        afterIndexPrefix, hi, stepQ]
+  | fd =>
+    simp only [idxByte, BitVec.ofNat_eq_ofNat] at h0
+    cases i <;> simp [Instr.isPrefix] at hnp <;>
+      simp [emulate, checkInterrupt_quiescent s b hc.quiescent, execOne, hap, fetchByte, rb_read, rb_read_mem, h0, hfd,
+        afterIndexPrefix, hi, stepQ]
+
 end ZxVerif.Z80
